@@ -59,7 +59,7 @@ def cell_group(cell):
 def cells(tier):
     out = []
     for reg in (False, True):
-        for op in OPS.values():
+        for op in list(OPS.values()) + list(catalog.EXTRA_OPS.values()):
             if "synonym" in op.tags:
                 continue
             for da in op.self_dims:
@@ -120,7 +120,7 @@ def examples(cell, tier):
 
 def strategy(cell, tier):
     if cell["group"] in ("op", "deep"):
-        one = opcheck.case_strategy(OPS[cell["op"]], cell["db"], "f64", None)
+        one = opcheck.case_strategy(catalog.get(cell["op"]), cell["db"], "f64", None)
     else:
         one = st.fixed_dictionaries({"a": gen.vec(("moderate",)), "b": gen.vec(("moderate",)), "s": st.fixed_dictionaries({
             "angle": st.floats(-3.0, 3.0), "factor": gen.factor(), "beta": gen.moderate_beta()})})
@@ -156,7 +156,7 @@ def _structure(v):
 
 
 def _check_op(cell, elems, ctx):
-    op = OPS[cell["op"]]
+    op = catalog.get(cell["op"])
     if "order" in op.scalars:
         for e in elems:
             e["s"]["order"] = elems[0]["s"]["order"]
@@ -231,7 +231,7 @@ def _check_deep(cell, elems, ctx):
     """the secondary argument (angle, factor, velocity, axis, booster) is one list level DEEPER than the vector operand:
     the result takes the broadcast structure (one vector per secondary value), every item is a vector record equal to the
     object-backend result for (vector i, secondary value ij), and the operand's extra fields are broadcast along."""
-    op = OPS[cell["op"]]
+    op = catalog.get(cell["op"])
     if "order" in op.scalars:
         for e in elems:
             e["s"]["order"] = elems[0]["s"]["order"]
